@@ -60,10 +60,11 @@ def monitor(impl_text, obs_text):
                 bad.append((cid, "le-is-not-eq-or-lt(%s)" % name, line))
             if len(bits) > 5 and bits[5] in "01" and (bits[5] == "1") != (gt or eq):
                 bad.append((cid, "ge-is-not-gt-or-eq(%s)" % name, line))
-        if mx[0] == mx[1]:
-            bad.append((cid, "ne-is-not-the-negation-of-eq(mixed)", line))
+        for k in range(0, len(mx) - 1, 2):
+            if mx[k] == mx[k + 1]:
+                bad.append((cid, "ne-is-not-the-negation-of-eq(mixed %d: array / double / const-pointer view / cref)" % (k // 2), line))
         e = emp.get(cid, set())
-        if p not in e and q not in e and (a != v[:5] or mx != v[:2]):
+        if p not in e and q not in e and (a != v[:5] or mx != v[:2] * (len(mx) // 2)):
             bad.append((cid, "ownership-kind-changes-the-answer", line))
     for cid, r in res.items():
         e = emp.get(cid, set())
